@@ -209,6 +209,32 @@ def handle (ws : List String) : String :=
       let sp := Spec.errClass kind ++ "|" ++ flag true ++ "|" ++ framesOut (Spec.trace files limit sc)
       reply m sp (traceDev sc kind)
     | _, _, _, _, _, _, _ => "bad-op"
+  | ["uthrow", _via, kind, txtAt] =>
+    -- the text token is followed by `@` + the JS expression that builds the thrown value (for the harness only)
+    let txt := (txtAt.splitOn "@").headD "-"
+    -- kind: p (primitive) | o (other object) | c (class Error without ottoError) | i:<Ctor>:<msg tok> (error instance)
+    let th : Option Thrown := match kind.splitOn ":" with
+      | ["p"] => (optStr? txt).bind (fun o => o.map Thrown.prim)
+      | ["o"] => (optStr? txt).bind (fun o => o.map Thrown.obj)
+      | ["c"] => (optStr? txt).bind (fun o => o.map Thrown.errClass)
+      | ["i", c, m] => match optStr? m with
+        | some m => some (.errObj c (m.getD "") (some c) (some (m.getD "")))
+        | none => none
+      | _ => none
+    match th with
+    | some th =>
+      let out := fun (o : Option (Bool × String)) => match o with
+        | none => "nil"
+        | some (e, t) => (if e then "E:" else "S:") ++ strOut t
+      reply (out (catchPanicErr th)) (out (Spec.uncaughtErr th)) "-"
+    | none => "bad-op"
+  | ["fspos", a, b, i] =>
+    match src? a, src? b, int? i with
+    | some a, some b, some idx =>
+      let fs := addFiles 1 [a, b]
+      reply (posOut (fileSetPosition fs idx)) (posOut (Spec.fileSetPosition fs idx))
+        (if idx ≥ 1 then "fileset_position_base_twice" else "-")
+    | _, _, _ => "bad-op"
   | ["etostr", k] =>
     let tk : Option ThisKind := match k with
       | "undef" => some .undef | "null" => some .null | "num" => some .prim | "str" => some .prim | "bool" => some .prim
